@@ -647,6 +647,15 @@ Definition src_fn_Ref_will_always_match (T : src_aut) (state : src_St T) : bool 
 Definition src_fn_Ref_accept (T : src_aut) (state : src_St T) (byte : N) : src_St T :=
   (src_accept T state byte).
 
+Definition src_fn_Slot_partial_cmp (self_idx : N) (self_input : list N) (self_output other_idx : N) (other_input : list N) (other_output : N) : option comparison :=
+  (Some (CompOpp (match (lex_cmp self_input other_input) with Eq => (N.compare self_output other_output) | src_c => src_c end))).
+
+Definition src_fn_Slot_cmp (self_idx : N) (self_input : list N) (self_output other_idx : N) (other_input : list N) (other_output : N) : res comparison :=
+  match (src_fn_Slot_partial_cmp self_idx self_input self_output other_idx other_input other_output) with
+  | Some x => (Ok x)
+  | None => Panic
+  end.
+
 Definition src_fn_Fst_new_too_short (len version root_addr : N) : bool :=
   (len <? 32).
 
